@@ -182,10 +182,24 @@ fn task_of(ev: Ev) -> usize {
 // ---------------------------------------------------------------------------------------
 // the real system
 
-struct Sentinel(Arc<AtomicBool>);
+/// Lives inside the task body.  When it is destroyed (the body returned, unwound, or was
+/// dropped on cancellation) it records that, and also whether the task's join handle could
+/// already be joined at that instant: `join()` must resolve only after the task has ended,
+/// i.e. not while the task's state is still being torn down (observable from another
+/// thread on a multi-thread runtime; detected here deterministically on one thread).
+struct Sentinel {
+    dropped: Arc<AtomicBool>,
+    handle_slot: Arc<std::sync::OnceLock<std::sync::Weak<JoinHandle>>>,
+    join_early: Arc<AtomicBool>,
+}
 impl Drop for Sentinel {
     fn drop(&mut self) {
-        self.0.store(true, Ordering::SeqCst);
+        if let Some(h) = self.handle_slot.get().and_then(|w| w.upgrade()) {
+            if futures::FutureExt::now_or_never(h.join()).is_some() {
+                self.join_early.store(true, Ordering::SeqCst);
+            }
+        }
+        self.dropped.store(true, Ordering::SeqCst);
     }
 }
 
@@ -208,11 +222,15 @@ struct RTask {
     joiners: Vec<Joiner>,
     body_finished: Arc<AtomicBool>,
     body_dropped: Arc<AtomicBool>,
+    /// the join handle was already joinable while the task's state was being destroyed
+    join_early: Arc<AtomicBool>,
 }
 
 fn start_task(kind: Kind) -> RTask {
     let body_finished = Arc::new(AtomicBool::new(false));
     let body_dropped = Arc::new(AtomicBool::new(false));
+    let join_early = Arc::new(AtomicBool::new(false));
+    let handle_slot: Arc<std::sync::OnceLock<std::sync::Weak<JoinHandle>>> = Arc::new(std::sync::OnceLock::new());
     let mut rt = RTask {
         gate_tx: None,
         cancel: None,
@@ -222,6 +240,7 @@ fn start_task(kind: Kind) -> RTask {
         joiners: vec![],
         body_finished: body_finished.clone(),
         body_dropped: body_dropped.clone(),
+        join_early: join_early.clone(),
     };
     if kind == Kind::TokenGuard {
         let token = Token::new();
@@ -233,7 +252,11 @@ fn start_task(kind: Kind) -> RTask {
     rt.gate_tx = Some(tx);
     // captured (not created inside the block) so that it is dropped with the future even if the
     // future is never polled
-    let sentinel = Sentinel(body_dropped);
+    let sentinel = Sentinel {
+        dropped: body_dropped,
+        handle_slot: handle_slot.clone(),
+        join_early,
+    };
     let body = async move {
         let _sentinel = sentinel;
         match rx.await {
@@ -258,7 +281,9 @@ fn start_task(kind: Kind) -> RTask {
         }
         Kind::TokenGuard => unreachable!(),
     };
-    rt.handle = Some(Arc::new(handle));
+    let handle = Arc::new(handle);
+    let _ = handle_slot.set(Arc::downgrade(&handle));
+    rt.handle = Some(handle);
     rt
 }
 
@@ -400,6 +425,12 @@ fn check(step: &str, models: &[MTask], real: &[RTask], out: &mut Outcome) {
             out.violations.push(viol("harness-joiner-count", format!("after {step}: task {t}: {e:?} vs {o:?}")));
         }
         if m.kind != Kind::TokenGuard {
+            if r.join_early.load(Ordering::SeqCst) {
+                out.violations.push(viol(
+                    "join-resolvable-before-task-state-dropped",
+                    format!("after {step}: the join handle of task {t} ({kind}) was already joinable while the task's own state was still being destroyed (task has {:?})", m.ended),
+                ));
+            }
             if m.cancelled && m.kind != Kind::Plain && !o.body_dropped {
                 out.violations.push(viol(
                     "cancelled-task-body-not-dropped",
